@@ -18,7 +18,7 @@ var c19Limits = []int{0, 3, 60} // 0 = default (50)
 
 func c19Tier(tier string) (maxLen, exh, long, nested int) {
 	if tier == "thorough" {
-		return 12, ((1 << 13) - 1) * 3 * 4, 200000, 200000
+		return 12, ((1 << 13) - 1) * 3 * 4, 2000000, 2000000
 	}
 	return 10, ((1 << 11) - 1) * 3 * 4, 30000, 30000
 }
